@@ -34,12 +34,27 @@ DIST_UPD = mbt("dist-upd", DIST, "MBT_Distributor.tla", "distributor", "mc/MBT_D
 DIST_SINGLE = {"name": "dist-single", "kind": "mbt", "files": DIST, "module": "MBT_Distributor.tla", "harness": "distributor",
                "thorough": dict(cfg="mc/MBT_Distributor_single_thorough.cfg", walks=2000, depth=10, timeout=3000, hworkers=16, heap="10g", workers=16)}
 
+VEST = ["DecArith.tla", "Vesting.tla", "mc/MC_Vesting.tla", "mc/MBT_Vesting.tla"]
+VEST_MC = mc("vesting-mc", VEST, "MC_Vesting.tla", "mc/MC_Vesting_quick.cfg", "mc/MC_Vesting_thorough.cfg")
+VEST_POOLS = mbt("vesting-pools", VEST, "MBT_Vesting.tla", "vesting", "mc/MBT_Vesting_pools_quick.cfg", "mc/MBT_Vesting_pools_thorough.cfg")
+VEST_ACCTS = mbt("vesting-accounts", VEST, "MBT_Vesting.tla", "vesting", "mc/MBT_Vesting_accounts_quick.cfg", "mc/MBT_Vesting_accounts_thorough.cfg")
+VEST_TWO = mbt("vesting-two-denoms", VEST, "MBT_Vesting.tla", "vesting", "mc/MBT_Vesting_two_quick.cfg", "mc/MBT_Vesting_two_quick.cfg")
+
 TRUST = ["TLC 1.8.0 and the TLA+ CommunityModules Json module", "the Go harness projection functions (harness/*)",
          "cosmos-sdk bank/auth keepers as the ground truth for balances and accounts"]
 
 DIST_ASSUME = TRUST + ["fault injection wraps the bank keeper passed to cfedistributor's keeper (same store); faults are per target account, one call per target and block"]
 
+VEST_ASSUME = TRUST + ["messages are delivered as baseapp does (ValidateBasic, routed handler on a cache context, write-back on success) without ante handler / signatures",
+                       "amounts <= 40 base units and vesting durations in {2,4} ticks keep the model's decimal arithmetic (P=100) identical to the 18-digit code"]
+
 PROPS = {
+    "C05": {"level": "model_checking", "stages": [VEST_MC, VEST_POOLS], "assumptions": VEST_ASSUME},
+    "C06": {"level": "model_checking", "stages": [VEST_MC, VEST_POOLS], "assumptions": VEST_ASSUME},
+    "C08": {"level": "model_checking", "stages": [VEST_MC, VEST_POOLS, VEST_ACCTS], "assumptions": VEST_ASSUME},
+    "C07": {"level": "model_checking", "stages": [VEST_MC, VEST_ACCTS, VEST_TWO], "assumptions": VEST_ASSUME},
+    "C09": {"level": "model_checking", "stages": [VEST_MC, VEST_ACCTS, VEST_POOLS], "assumptions": VEST_ASSUME},
+    "C17": {"level": "model_checking", "stages": [VEST_MC, VEST_ACCTS, VEST_POOLS], "assumptions": VEST_ASSUME},
     "C03": {"level": "model_checking", "stages": [DIST_MC, DIST_CUR, DIST_MULTI, DIST_SINGLE], "assumptions": DIST_ASSUME},
     "C04": {"level": "model_checking", "stages": [DIST_MC, DIST_CUR, DIST_MULTI, DIST_SINGLE], "assumptions": DIST_ASSUME},
     "C14": {"level": "model_checking", "stages": [DIST_MC_FAULTS, DIST_CUR], "assumptions": DIST_ASSUME},
